@@ -1,4 +1,4 @@
-CONSTANTS MaxRules = 4  MaxOps = 3  MaxC = 3  Times = {5, 15}
+CONSTANTS RuleIdx <- AllRules  MaxRules = 4  MaxOps = 3  MaxC = 3  Times = {5, 15}
 INIT Init
 NEXT Next
 VIEW View
